@@ -43,7 +43,7 @@ ASSUMPTIONS = ['TIF-marked LIS files whose first record is exactly 276 bytes sha
                'the watchdog is 60 s for inputs whose normal cost is milliseconds']
 SHARDS = {'quick': 4, 'thorough': 16}
 REQUIRED_CLASSES = {'valid-RP66V1': 1, 'valid-LIS': 1, 'valid-LISt': 1, 'valid-LIStr': 1, 'valid-LAS1.2': 1, 'valid-LAS2.0': 1, 'valid-BIT': 1,
-                    'valid-DAT': 1, 'arbitrary-truncation': 1, 'arbitrary-mutation': 1, 'arbitrary-splice': 1, 'arbitrary-random': 1, 'arbitrary-text-token': 1,
+                    'valid-DAT': 1, 'arbitrary-truncation': 1, 'arbitrary-mutation': 1, 'arbitrary-splice': 1, 'arbitrary-random': 1, 'arbitrary-text-token': 1, 'arbitrary-digit-run': 1,
                     'valid-DAT-first-row-beyond-4KiB': 1, 'valid-file>8KiB': 1, 'arbitrary-ebcdic': 1, 'valid-BIT-20-channels': 1, 'valid-LIS-over-100-even-records-then-odd': 1, 'valid-file-from-path': 1, 'valid-LIS-padded-records': 1, 'valid-LIS-TIF-padded-by>=12': 1}
 
 
@@ -273,7 +273,8 @@ MAGIC = [b'\x00' * 8 + b'\x20\x01\x00\x00', b'\x00' * 8 + b'\x00\x00\x01\x20', b
 
 @st.composite
 def arbitrary_cases(draw, max_len=4096):
-    kind = draw(st.sampled_from(['random', 'random', 'magic', 'truncation', 'truncation', 'mutation', 'mutation', 'splice', 'text-token', 'ebcdic']))
+    kind = draw(st.sampled_from(['random', 'random', 'magic', 'truncation', 'truncation', 'mutation', 'mutation', 'splice', 'text-token', 'ebcdic',
+                                 'digit-run', 'digit-run']))
     if kind == 'ebcdic':
         # 3200 bytes of printable EBCDIC in 80 column cards (what the SEG-Y recogniser looks for), the first k cards
         # numbered 'Cnn' correctly, the rest arbitrary printable EBCDIC
@@ -312,6 +313,30 @@ def arbitrary_cases(draw, max_len=4096):
         return {'kind': 'text-token', 'data': out, 'fmt': base['fmt']}
     base = draw(valid_cases())
     data = render(base)[0]
+    if kind == 'digit-run':
+        # a numeric field (storage unit label numbers, LAS / DAT numbers, dates, times) damaged the way fields get damaged:
+        # stretched by a stuck key, a blank or a sign inside, emptied - aimed at the part of the file a recogniser reads
+        import re as _re
+        runs = [m.span() for m in _re.finditer(rb'[0-9]+', data[:4096])]
+        if not runs:
+            return {'kind': 'random', 'data': data[:64]}
+        a, b = runs[draw(st.integers(0, min(len(runs) - 1, 12)))] if draw(st.booleans()) else runs[draw(st.integers(0, len(runs) - 1))]
+        run = data[a:b]
+        how = draw(st.integers(0, 5))
+        if how == 0:
+            rep = run + b'9' * draw(st.integers(6, 30))
+        elif how == 1:
+            rep = draw(st.sampled_from([b'3', b'9', b'1'])) * draw(st.integers(10, 30)) + run
+        elif how == 2 and len(run) >= 2:
+            k = draw(st.integers(1, len(run) - 1))
+            rep = run[:k] + draw(st.sampled_from([b' ', b'-', b'+', b'.', b'\x00', b'_'])) + run[k + 1:]
+        elif how == 3:
+            rep = b' ' * len(run)
+        elif how == 4:
+            rep = b''
+        else:
+            rep = b'0' * len(run)
+        return {'kind': kind, 'data': data[:a] + rep + data[b:], 'fmt': base['fmt']}
     if kind == 'truncation':
         n = len(data)
         cut = draw(st.one_of(st.integers(0, min(n, 400)), st.integers(0, n), st.sampled_from([12, 80, 84, 0x114, 0x120, 256, n - 1, n - 12, n - 24]).map(lambda v: max(0, min(n, v)))))
